@@ -177,7 +177,9 @@ func Run(c *vrun.Ctx) error {
 		"27 framing faults and fault pairs) the verdict class (accept / short / malformed / unknown command). Every state is replayed into btcd: bytes = token->bytes rendering with seeded contents, message values built with the same contents. " +
 		"distinct_nontrivial counts distinct (type, version, encoding, shape, mutation class, field, claimed value, cut, verdict) combinations; the unmutated encoding of a case counts as one. " +
 		"Beside it WireBlockApi.tla enumerates every sequence of at most 4 accessor calls (Bytes, BytesNoWitness, Tx(i), Transactions, TxLoc, TxHash(i), Hash) on blocks of 3 and 4 transactions (with and without witness) built by NewBlock, " +
-		"NewBlockFromBytes and NewBlockFromBlockAndBytes; each sequence is one distinct case: every return value and, afterwards, every identifier / cached byte string the API shows must equal the specification's table whatever the order."
+		"NewBlockFromBytes and NewBlockFromBlockAndBytes; each sequence is one distinct case: every return value and, afterwards, every identifier / cached byte string the API shows must equal the specification's table whatever the order. " +
+		"WireStable.tla enumerates histories of decodes (ReadTxOut, MsgTx and MsgBlock under both encodings x script sizes 0/1/25/513/5000, length <= 2, thorough 3); all are replayed in one process, every decoded value is kept and must re-encode to its bytes after all later decodes and a burst of 200 more; " +
+		"the replay children do the same with every value they accepted (ReadMessageWithEncodingN of every type, Deserialize*, ReadTxOut), re-checked after the rest of their shard."
 	c.Assume("TLC evaluates the operators of WireLayout.tla correctly (token-level encoders, decoders, sizes, framing pipeline); the lemmas Decode(Encode(m)) = m, Encode(Decode(ts)) = ts, Size = Len(Encode), prefix-freeness, txid/wtxid token laws are invariants of the same run")
 	c.Assume("structured hostile input only: truncations, oversized claims, non-canonical lengths, trailing bytes and framing faults derived from the layout model; this is NOT coverage-guided fuzzing of arbitrary byte strings, and field CONTENTS are seeded pseudo-random values, not adversarial ones")
 	c.Assume("allocation is measured as the growth of the runtime metric /gc/heap/allocs:bytes (every byte allocated during the call, an upper bound of the peak; objects below 32 KiB are counted with a lag of at most about a megabyte) in a single-goroutine child process and compared with AllocFactor x MaxMessagePayload = 8 x 32 MiB from the specification")
@@ -203,6 +205,7 @@ func Run(c *vrun.Ctx) error {
 				Shape string `json:"shape"`
 				Case  string `json:"case"`
 				Ctor  string `json:"constructor"`
+				Dec   string `json:"decoder"`
 			} `json:"replay"`
 		}
 		if err := json.Unmarshal(b, &doc); err != nil {
@@ -211,6 +214,9 @@ func Run(c *vrun.Ctx) error {
 		thorough = doc.Tier == "thorough"
 		if doc.Replay.Ctor != "" { // an accessor-order finding: all sequences are replayed again
 			return runBlockApi(c, thorough)
+		}
+		if doc.Replay.Dec != "" && doc.Replay.Case == "" { // a stability finding of the WireStable histories
+			return runStable(c, thorough)
 		}
 		replayID = doc.Replay.Case
 		if replayID == "" {
@@ -223,10 +229,17 @@ func Run(c *vrun.Ctx) error {
 	if thorough {
 		cfg, timeout = "WireCases_thorough.cfg", 28*time.Minute
 	}
-	// the accessor-order cases of btcutil.Block (WireBlockApi.tla) run beside the main enumeration
+	// the accessor-order cases of btcutil.Block (WireBlockApi.tla) and the stability histories
+	// (WireStable.tla) run beside the main enumeration
 	apiErr := make(chan error, 1)
 	if replayID == "" && os.Getenv("VERIF_WIRE_ONLY") == "" {
-		go func() { apiErr <- runBlockApi(c, thorough) }()
+		go func() {
+			err := runBlockApi(c, thorough)
+			if err == nil {
+				err = runStable(c, thorough)
+			}
+			apiErr <- err
+		}()
 	} else {
 		apiErr <- nil
 	}
@@ -362,6 +375,9 @@ func Run(c *vrun.Ctx) error {
 		}
 		list[i].weight = wgt
 		list[i].heavy = e.Probe || e.Size > 8<<20
+		if list[i].heavy {
+			list[i].weight *= 20 // fresh memory: the estimate by bytes and inputs is far too low
+		}
 		if e.Dec == "ok" {
 			accepted[cr.API+":"+cr.Type] = true
 		}
@@ -481,7 +497,7 @@ func Run(c *vrun.Ctx) error {
 			return err
 		}
 	}
-	var evals, rejected, acceptedN int64
+	var evals, rejected, acceptedN, kept int64
 	var maxAlloc uint64
 	maxAllocAt := ""
 	done := 0
@@ -509,7 +525,10 @@ func Run(c *vrun.Ctx) error {
 			done++ // the crashed case
 		}
 		for _, r := range o.results {
-			done++
+			if !r.Extra {
+				done++
+			}
+			kept += boolInt(r.Extra) * r.Evals
 			evals += r.Evals
 			rejected += r.Rejected
 			acceptedN += r.Accepted
@@ -543,6 +562,7 @@ func Run(c *vrun.Ctx) error {
 		ncases, evals, rejected, acceptedN, maxAlloc, maxAllocAt, time.Since(t0).Seconds(), nsh)
 	c.AddTraces(int64(ncases))
 	c.AddEval(evals)
+	c.SetExtra("decoded_values_rechecked_after_later_decodes", kept)
 	c.SetExtra("hostile_inputs_offered", rejected)
 	c.SetExtra("accepted_inputs_offered", acceptedN)
 	c.SetExtra("largest_decoder_allocation_bytes", maxAlloc)
@@ -679,4 +699,11 @@ func checkV2Table(c *vrun.Ctx, types, ids []string, known []bool, long []Tok) er
 	}
 	c.AddEval(evals)
 	return nil
+}
+
+func boolInt(b bool) int64 {
+	if b {
+		return 1
+	}
+	return 0
 }
